@@ -283,6 +283,18 @@ def rule_AU1(ctx, tier):
                     inits.append(a0)
                 pieces.append(og.strip(arg_origin(ctx, un, bb, 1)))
         pieces = inits + pieces
+        if not pieces:
+            # `[a, b].concat()` / `[a, b].join(..)`-free form: the hashed bytes are the concatenation of a literal list
+            for bb in sites_containing(un, "Hash", "::hash"):
+                h = og.strip(arg_origin(ctx, un, bb, 0))
+                if isinstance(h, tuple) and h and h[0] == "call" and h[1].split("::")[-1] == "concat" and len(h[2]) == 1 and isinstance(h[2][0], tuple) and h[2][0][0] == "tuple":
+                    pieces = [og.strip(x) for x in h[2][0][1]]
+        # `&x[..]` is the whole of x
+        def _whole(t):
+            if isinstance(t, tuple) and t and t[0] == "call" and t[1].split("::")[-1] == "index" and len(t[2]) == 2 and isinstance(t[2][1], tuple) and t[2][1][:2] == ("agg", "std::ops::RangeFull"):
+                return _whole(t[2][0])
+            return t
+        pieces = [_whole(pc) for pc in pieces]
         loc_ok = any(("param", un.id, 1) in list(og.walk(pc)) and not any(isinstance(x, tuple) and x and x[0] == "call" and x[1].split("::")[-1] not in ("to_vec", "as_ref", "deref", "borrow", "clone", "as_slice", "serialize") for x in og.walk(pc)) for pc in pieces)
         INJ = ("secp256k1::PublicKey::serialize", "secp256k1::PublicKey::serialize_uncompressed", "teos_common::UserId::to_vec")
         usr = [pc for pc in pieces if ("param", un.id, 2) in list(og.walk(pc))]
@@ -537,6 +549,22 @@ def rule_SL(ctx, tier):
         rt = og.strip(ctx.og.local(cs, 0))
         shown = og.show(rt)
         floor = any(isinstance(x, tuple) and x and x[0] == "call" and x[1].split("::")[-1] == "max" and any(isinstance(y, tuple) and y and y[0] == "const" and y[1] == 1 for y in x[2]) for x in og.walk(rt))
+        if not floor and isinstance(rt, tuple) and rt and rt[0] == "phi":
+            # the clamp written as a branch: `if slots < 1 { 1 } else { slots }` -- every constant arm is >= 1 and the
+            # computed value is returned only where a comparison on the way says it is >= 1
+            from .rulekit import relations
+            consts = [const_of(t) for t in rt[1] if const_of(t)]
+            others = [t for t in rt[1] if not const_of(t)]
+            def at_least_one(x):
+                for bb in cs.rpo():
+                    for st_ in cs.blocks[bb]["s"]:
+                        if st_["k"] == "assign" and st_["d"] == [0] and not (st_["rv"].get("k") == "use" and "k" in st_["rv"].get("o", {})):
+                            for op, l, r in relations(ctx, cs, bb):
+                                c = const_of(r)
+                                if og.strip(l) == og.strip(x) and c and isinstance(c[0], int) and ((op == "Ge" and c[0] >= 1) or (op == "Gt" and c[0] >= 0) or (op == "Ne" and c[0] == 0)):
+                                    return True
+                return False
+            floor = bool(consts) and all(isinstance(c[0], int) and c[0] >= 1 for c in consts) and len(others) == 1 and at_least_one(others[0])
         ceil_div = "ceil" in shown and "Div(" in shown
         if floor and ceil_div:
             rr.ok("slots(len) = max(ceil(len / slot size), 1)", sample={"rule": "SL", "compute_appointment_slots": shown[:160]})
